@@ -153,15 +153,11 @@ func childMain(dir string) {
 	lg.Rec("ret", "driver", "Shutdown", map[string]any{"err": errStr(err)})
 	snap("after-Shutdown")
 
-	// quiescence: every callback that began has ended (generous watchdog; not a verdict)
-	deadline := time.Now().Add(20 * time.Second)
-	for open.Load() != 0 && time.Now().Before(deadline) {
-		time.Sleep(500 * time.Microsecond)
-	}
-	out.Quiesced = open.Load() == 0
-	// settle: portbase sets the status right after a callback returned; give a start that
-	// ended successfully after the API call had already returned the time to become
-	// visible. Waiting too short can only hide a late change, never invent one.
+	// quiescence: every callback that began has ended and no status change the harness
+	// can expect is pending (generous watchdog; not a verdict). A start routine launched
+	// by a pass that has already returned may not even have begun yet, so the state has
+	// to be stable over several scheduler rounds. Waiting too short can only hide a late
+	// change (and leaves the stop-count oracle undecided), never invent one.
 	settled := func() bool {
 		for _, n := range order {
 			switch mods[n].Status() {
@@ -179,18 +175,18 @@ func childMain(dir string) {
 		}
 		return true
 	}
-	deadline = time.Now().Add(2 * time.Second)
-	for !settled() && time.Now().Before(deadline) {
-		time.Sleep(500 * time.Microsecond)
-	}
-	if out.Quiesced {
-		// a few more scheduler rounds for "callback returned → status written"
-		for i := 0; i < 20; i++ {
-			time.Sleep(200 * time.Microsecond)
+	deadline := time.Now().Add(20 * time.Second)
+	stable := 0
+	for stable < 8 && time.Now().Before(deadline) {
+		if open.Load() == 0 && settled() {
+			stable++
+		} else {
+			stable = 0
 		}
+		time.Sleep(400 * time.Microsecond)
 	}
 	out.Settled = settled()
-	out.Quiesced = out.Quiesced && open.Load() == 0
+	out.Quiesced = stable >= 8 && open.Load() == 0
 	snap("quiescent")
 	out.Notifies = notifies.Load()
 	out.Events = lg.Events()
